@@ -1756,6 +1756,21 @@ def unit_aggrow(inj, scratch):
     return dict(functions=[r], dropped=[d])
 
 
+def unit_parseroots(inj, scratch):
+    """Parser::parse_roots: whole function (signature included) verbatim on a shim Parser with token texts; parse_root_options is a stand-in."""
+    frag_begin(inj)
+    s = src('src/parser.rs', scratch)
+    it = s.fn('parse_roots', impl='Parser')
+    whole = dedent(s.text[it['sig_start']:it['end']])
+    text = ('pub mod parseroots {\n' + H('frag_parseroots_prelude.rs') + '\nimpl Parser {\n// ---- verbatim: fn parse_roots ----\npub ' + whole + '\n}\n'
+            + H('frag_parseroots.kani.rs') + '\n}\n')
+    inj.new_file(FRAG_FILE, text)
+    r, d = frag_record('parseroots::Parser::parse_roots', 'src/parser.rs', 'impl Parser / fn parse_roots (whole function incl. signature, verbatim, as a method of a shim Parser)', whole, whole,
+                       ['token texts -> one-byte ids (String / Lexem shims with the same variant and method names); parse_root_options -> stand-in consuming the run of option tokens; UserDirs -> none known; PathBuf -> dummy'],
+                       'parse_root_options itself (V: C11.rootopt), home-directory expansion of `~`')
+    return dict(functions=[r], dropped=[d])
+
+
 def unit_rowflow(inj, scratch):
     frag_begin(inj)
     s = src('src/searcher.rs', scratch)
